@@ -28,6 +28,9 @@ type RoutineContainer struct {
 	routine *runningRoutine
 	// retryBo is the retry backoff if retrying is enabled.
 	retryBo cbackoff.BackOff
+	// clearedExitedCh is the exited channel of the routine that was cleared
+	// with SetRoutine(nil), if any: the next routine waits for it.
+	clearedExitedCh <-chan struct{}
 }
 
 // NewRoutineContainer constructs a new RoutineContainer.
@@ -170,7 +173,11 @@ func (k *RoutineContainer) setRoutineLocked(routine Routine, broadcast func()) (
 			prevRoutine.ctxCancel = nil
 		}
 		k.routine = nil
+	} else {
+		// the routine cleared earlier may still be exiting
+		prevExitedCh = k.clearedExitedCh
 	}
+	k.clearedExitedCh = nil
 
 	if routine != nil {
 		r := newRunningRoutine(k, routine)
@@ -182,8 +189,11 @@ func (k *RoutineContainer) setRoutineLocked(routine Routine, broadcast func()) (
 			r.exitedCh = prevExitedCh
 		}
 		broadcast()
-	} else if wasReset {
-		broadcast()
+	} else {
+		k.clearedExitedCh = prevExitedCh
+		if wasReset {
+			broadcast()
+		}
 	}
 
 	return prevExitedCh, wasReset
